@@ -18,23 +18,25 @@ CHECKS = {
             'sanitizer report, no uncaught exception and no CPU-limit hit, and a non-zero status must come with empty stdout and (without '
             '-q) a diagnostic.',
             'Bounded time is decided by a CPU limit (8 s in the search, confirmed with 20 s); inputs are capped at 64 KiB; corpus files '
-            'whose truncations are known to hang are left out of the random pools and replayed from regress/ instead; libFuzzer is not '
-            'used in this revision (out-of-process mutation only).', 'DESIGN.md §3 C06'),
+            'unknown hangs are minimised under a 3 s limit; the thorough tier adds an in-process libFuzzer target (fuzz/harness.cpp) as a '
+            'coverage-guided candidate generator whose artifacts and new corpus entries are all re-judged out of process.', 'DESIGN.md §3 C06'),
     'C01': ('translation_validation', 'Hypothesis-generated C and C++ programs + compilable corpus files x single-option sweep / random / '
             'whole-family configs; differential oracle: gcc/g++ -O1 -S of output == of input, uncrustify exits 0',
             'Grammar-generated C programs and C++ translation units in random layouts and the ~330 corpus files that compile stand-alone are '
             'formatted under every whitespace / mod_ / cmt_ option singly at every enumerated or boundary value (thorough: all settings), '
-            'random multi-option draws and whole-family settings; the object code gcc / g++ emits for the output must be byte-identical to '
+            'random multi-option draws and whole-family settings, and 250-1500 enumerated brace shapes (nestings of brace-less / braced if, for, while around an inner if, with and without else) run under the brace options; the object code gcc / g++ emits for the output must be byte-identical to '
             'that for the input and uncrustify must accept the program.',
             'gcc/g++ without -g emit no line information; generated programs avoid layout-dependent constructs; Objective-C and Java are not '
             'compiled in this revision; mod_infinite_loop values that introduce `true` are not applied to C inputs.', 'DESIGN.md §3 C01'),
     'C18': ('exploration', 'Hypothesis-generated block-structured C programs with per-line random indentation x indent options; closed-form '
             'oracle (column = 1 + depth * indent_columns, from the generator\'s depth annotation) + metamorphic invariance under re-indentation',
-            'Programs with every statement kind and exact nesting-depth annotations are rendered with an independently random indentation '
+            'Grammar-generated C programs and line programs in C++ / Java / C (try/catch/finally chains, range-for, switch, unbraced '
+            'bodies) with exact nesting-depth annotations are rendered with an independently random indentation '
             'per line; for indent_columns 1..16, indent_with_tabs 0..2, output_tab_size 1..16 and brace-placement options every line that '
             'starts with a statement\'s first token must sit in the closed-form visual column, closing braces under their opener, and a second '
-            'rendering that differs only in indentation must give identical leading whitespace on those lines.',
-            'C only; preprocessor groups, dangling-else shapes, bare blocks as bodies and class / namespace bodies are kept out so that the '
+            'rendering that differs only in indentation must give identical leading whitespace on those lines; with indent_brace > 0 '
+            'statements of equal depth in one function must share a column.',
+            'Preprocessor groups, dangling-else shapes, bare blocks as bodies and class / namespace bodies are kept out so that the '
             'depth annotation is exact; continuation lines, comments and parenthesised text are not judged.', 'DESIGN.md §3 C18'),
     'C19': ('exploration', 'exhaustive sweep sp_ option x 4 values over a corpus slice + random joint assignments over the corpus and generated '
             'C / C++ programs; oracle: hook record (rule, value, forced) vs configured value, gap measured in the output bytes',
@@ -50,7 +52,7 @@ CHECKS = {
             'Every C / C++ corpus file under the built-in default and the curated profiles in /verif/profiles (thorough: the whole '
             'universe, quick: default + 2 seeded profiles) must be a fixed point after one pass - the second and third pass reproduce the '
             'first byte for byte and --check passes - with the 65 known unstable (profile, file) pairs listed one by one; generated C '
-            'programs in calm layouts are pushed through histories of length 3 under the profiles; for random whitespace / mod_ configs '
+            'programs in calm layouts (with starred and box comments) are pushed through histories of length 3 under the profiles; for random whitespace / mod_ configs '
             'the second pass must accept the first pass\'s output.',
             'freebsd, amxmodx and sun are not claimed; kr-indent, linux-indent and linux are claimed over the corpus universe only; known '
             'root-cause families (continuation-line drift, trailing-comment gap, multi-line comment drift) are matched by the kind of line '
@@ -113,7 +115,8 @@ CHECKS = {
             'For random non-empty subsets of the mod_ options (plus whitespace options) and a single-option sweep, the input and output '
             'token streams (independent lexer and tokenizer view) must be equal as sequences after removing the token kinds the enabled '
             'options document, each kind\'s count may change only in the documented direction, brackets stay balanced, and lines owned '
-            'by the sort / de-duplicate options are compared as multisets of whole lines.',
+            'by the sort / de-duplicate options are compared as multisets of whole lines; enumerated brace shapes (single- and multi-line '
+            'conditions) run under the brace options incl. the chain and multi-line-condition guards.',
             'Kinds and directions per option are a table written from the option documentation; mod_sort_oc_properties is outside '
             'the domain; program shapes for non-C languages come from the corpus only.', 'DESIGN.md §3 C04'),
     'C15': ('exploration', 'exhaustive option x value enumeration + seeded random configs; round-trip / idempotence / differential oracle',
@@ -207,7 +210,11 @@ def main():
         ],
         'checks': [],
         'not_applicable': [],
-        'notes': 'Single entry point ./check <id> --tier quick|thorough [--replay FILE]. known_findings.json is the committed '
+        'notes': 'Seed policy: the fixed universes of both tiers (which corpus file gets which configuration, which truncations / '
+                 'mutants / option sweeps are taken, the pool generated cases draw their configuration from) do not move with VERIF_SEED - '
+                 'they were burnt in once and every alarm became a fix: commit or a ledger entry; VERIF_SEED drives the Hypothesis-generated '
+                 'programs, layouts, region contents and histories. '
+                 'Single entry point ./check <id> --tier quick|thorough [--replay FILE]. known_findings.json is the committed '
                  'ledger (status known = printed as KNOWN-FINDING, status fixed = repaired by a fix: commit, suppresses nothing); '
                  'regress/<id>/ holds the replay tier.',
     }
